@@ -2,6 +2,8 @@
 
 package main
 
+import "strconv"
+
 // C18: the comma separated filter option is parsed into the list of types, in order
 // (strings.Split and strconv.ParseUint are evaluated by the host on these concrete strings).
 func VerifFilterOption() {
@@ -15,5 +17,50 @@ func VerifFilterOption() {
 	verifAssert(verifAll(len(b) == 1, b[0] == 2), "single value")
 	var c arrUInt32Flags
 	verifAssert(c.Set("1,x") != nil, "a non-number is rejected")
+	verifReach("end")
+}
+
+// C18: the option with SYMBOLIC numbers. The text "x1,x2,...,xk" (k = 1..5) is built with
+// strconv.FormatUint from arbitrary 32-bit values and handed to the real parser in one call or
+// split over two calls (the option may be repeated on the command line). Every listed type must
+// be in the parsed list — wherever it stands in the text and whatever its value — and nothing
+// else may be (duplicates may be kept or dropped; the decoder only tests membership).
+func VerifFilterOptionAny() {
+	k := 1 + verifCase(5)
+	xs := make([]uint32, k)
+	for i := range xs {
+		xs[i] = verifNondetU32()
+	}
+	cut := verifCase(k) // entries [0,cut) in a first call when cut > 0
+	text := func(lo, hi int) string {
+		s := ""
+		for i := lo; i < hi; i++ {
+			if i > lo {
+				s += ","
+			}
+			s += strconv.FormatUint(uint64(xs[i]), 10)
+		}
+		return s
+	}
+	var a arrUInt32Flags
+	if cut > 0 {
+		verifAssert(a.Set(text(0, cut)) == nil, "a list of numbers is accepted")
+	}
+	verifAssert(a.Set(text(cut, k)) == nil, "a list of numbers is accepted")
+	verifAssert(len(a) <= k, "no more entries than listed types")
+	for i := 0; i < k; i++ {
+		in := false
+		for _, v := range a {
+			in = verifAny(in, v == xs[i])
+		}
+		verifAssert(in, "every listed type is in the parsed filter, wherever it stands in the list")
+	}
+	for _, v := range a {
+		in := false
+		for i := 0; i < k; i++ {
+			in = verifAny(in, v == xs[i])
+		}
+		verifAssert(in, "the parsed filter contains only listed types")
+	}
 	verifReach("end")
 }
